@@ -134,7 +134,10 @@ def run_prop(prop, tier, ctx=None, quiet=False):
             counts[o.rule] = counts.get(o.rule, 0) + 1
         if not any(o.status == VIOLATED for o in obs):
             for rule, mn in registry.expect_for(prop).items():
-                if counts.get(rule, 0) < max(1, (mn * 7) // 10):
+                floor = max(1, (mn * 7) // 10)
+                if rule in registry.STRUCTURAL_FLOORS:
+                    floor = min(floor, registry.STRUCTURAL_FLOORS[rule])
+                if counts.get(rule, 0) < floor:
                     raise AnalysisBroken(f'rule {rule} produced {counts.get(rule, 0)} obligations, fewer than 70% of the {mn} confirmed by hand on the pinned tree '
                                          f'(a rule that matches nothing never passes silently)')
         extra = {'constexpr_if_sites': len(cov), 'constexpr_if_arms_covered': sum(len(v) for v in cov.values())}
